@@ -194,6 +194,17 @@ def run(prop, args):
                 if m.group(1) != m.group(2):
                     chk.distinct_keys.add((m.group(1), m.group(2), 13 in json.loads(ln)["dfl"]))
                     chk.extra["reduced_dispatches"] = chk.extra.get("reduced_dispatches", 0) + 1
+    if not quick:
+        import repotests
+        for name, tr in repotests.traces(wd, max_events=4000):
+            fn = os.path.join(wd, "rt-%s.ndjson" % name)
+            with open(fn, "w") as f:
+                body = open(tr).read().splitlines(True)
+                f.write(body[0])                                   # Reset
+                f.write(json.dumps({"e": "Valid", "triples": triples}) + "\n")
+                f.writelines(l for l in body[1:] if l.startswith('{"e":"Dispatch"'))
+            traces.append(fn)
+        chk.extra["repository_tests_traced"] = [n for n, _ in repotests.TESTS]
     chk.extra["distinct_reductions_seen"] = sorted("%s->%s%s" % (a, b, " (dst opaque)" if c else "") for a, b, c in chk.distinct_keys)
     chk.distinct_keys = set(hash(k) for k in chk.distinct_keys)
     vf.validate_batches(chk, "OpacityTrace", traces, cfg=os.path.join(vf.SPEC, "trace", "OpacityTrace.cfg"),
